@@ -59,11 +59,18 @@ func c11Invariant(roll *c11roll) regInv {
 				d := dirtyFr()
 				res[k] = &d
 			}
+			orig := append([]*fr.Element(nil), res...) // the caller's own variables
 			if err := banderwagon.BatchMapToScalarField(res, els); err != nil {
 				vio(r, "c11.batch", "banderwagon.BatchMapToScalarField", hist, "no error", err.Error())
 				continue
 			}
 			for k, o := range order {
+				if res[k] != orig[k] {
+					vio(r, "c11.batch", "banderwagon.BatchMapToScalarField", hist+fmt.Sprintf(" order=%v", order), fmt.Sprintf("result[%d] still points to the caller's variable", k), "the slot was redirected to another variable")
+				}
+				if !orig[k].Equal(&vals[o]) {
+					vio(r, "c11.batch", "banderwagon.BatchMapToScalarField", hist+fmt.Sprintf(" order=%v", order), fmt.Sprintf("the caller's variable for slot %d holds the single-call value %s", k, frToBig(vals[o]).Text(16)), frToBig(*orig[k]).Text(16))
+				}
 				if !res[k].Equal(&vals[o]) {
 					vio(r, "c11.batch", "banderwagon.BatchMapToScalarField", hist+fmt.Sprintf(" order=%v", order), fmt.Sprintf("result[%d] = single-call value %s", k, frToBig(vals[o]).Text(16)), frToBig(*res[k]).Text(16))
 				}
@@ -81,7 +88,7 @@ func init() {
 	}, 3, 4)
 	core.Register(&core.Check{
 		ID: "C11", Level: "model_checking",
-		Rule:   "same explicit-state search as C07 (27 operations, all sequences up to depth 3/4, exact-limb state keys); in every distinct state MapToScalarField(r_i) = reference LE(x/y mod p) mod r, equal for all representations of one class reached along different paths (hash set over all visited classes), different for different classes (injectivity on the visited classes), BatchMapToScalarField on every register ordering incl. a duplicate equals the single calls; plus batches of lengths 0..300 with duplicates and the identity, length mismatch = error; non-trivial = every visited state",
+		Rule:   "same explicit-state search as C07 (28 operations, all sequences up to depth 3/4, exact-limb state keys); in every distinct state MapToScalarField(r_i) = reference LE(x/y mod p) mod r, equal for all representations of one class reached along different paths (hash set over all visited classes), different for different classes (injectivity on the visited classes), BatchMapToScalarField on every register ordering incl. a duplicate equals the single calls; plus batches of lengths 0..300 with duplicates and the identity, length mismatch = error; non-trivial = every visited state",
 		Assume: []string{"reference: x/y over math/big, little-endian integer value reduced mod r", "class identity from the reference group law along the same history"},
 		Units: func(ctx *core.Ctx) []core.Unit {
 			us := base(ctx)
@@ -114,6 +121,7 @@ func init() {
 						res[i] = &d
 					}
 					in := fmt.Sprintf("BatchMapToScalarField(len %d)", L)
+					orig := append([]*fr.Element(nil), res...)
 					var err error
 					if !guard(r, "c11.panic", "banderwagon.BatchMapToScalarField", in, func() { err = banderwagon.BatchMapToScalarField(res, els) }) {
 						continue
@@ -125,6 +133,10 @@ func init() {
 						continue
 					}
 					for i := range res {
+						if res[i] != orig[i] || frToBig(*orig[i]).Cmp(want[i]) != 0 {
+							vio(r, "c11.batch", "banderwagon.BatchMapToScalarField", in, fmt.Sprintf("the caller's variable for slot %d holds %s", i, want[i].Text(16)), frToBig(*orig[i]).Text(16))
+							break
+						}
 						if frToBig(*res[i]).Cmp(want[i]) != 0 {
 							vio(r, "c11.batch", "banderwagon.BatchMapToScalarField", in, fmt.Sprintf("result[%d] = %s", i, want[i].Text(16)), frToBig(*res[i]).Text(16))
 							break
